@@ -1,6 +1,6 @@
 (* C01  Value-flow facts hold in every UB-free execution — the part decided by
    proof: the leaf transfer functions every pass funnels through. *)
-From CV Require Import Base.Bytes VF.Defs VF.Proofs.
+From CV Require Import Base.Bytes VF.Defs VF.Proofs VF.MiniC VF.MiniCProofs.
 Local Open Scope Z_scope.
 
 (* calculate<bigint>: exact whenever the mathematical result fits 64 bits *)
@@ -51,6 +51,22 @@ Theorem C01_min_max_spec bits s lo hi : 2 <= bits < 62 ->
   end.
 Proof. exact (min_max_spec bits s lo hi). Qed.
 Print Assumptions C01_min_max_spec.
+
+(* the MiniC interpreter used as execution oracle: on closed expressions it is the constant-expression
+   semantics; every conversion lands in the target type's range; stored values stay in range along
+   every execution of every program (any fuel) *)
+Theorem C01_veval_embed p g e : veval p g (embed e) = eval p e.
+Proof. exact (veval_embed p g e). Qed.
+Print Assumptions C01_veval_embed.
+
+Theorem C01_convert_fits p t v : platform_ok p -> fits p t (convert p t v) = true.
+Proof. exact (convert_fits p t v). Qed.
+Print Assumptions C01_convert_fits.
+
+Theorem C01_exec_env_ok fuel p g tr ss o g' tr' :
+  platform_ok p -> env_ok p g -> exec fuel p g tr ss = (o, g', tr') -> env_ok p g'.
+Proof. exact (exec_env_ok fuel p g tr ss o g' tr'). Qed.
+Print Assumptions C01_exec_env_ok.
 
 Example C01_calc_example : calc Add 9223372036854775807 1 = Some (-9223372036854775808).
 Proof. vm_compute. reflexivity. Qed.
